@@ -20,7 +20,7 @@ static void op_rtap(int nt, char **t) {
     int r;
     LIB(r = libwifi_parse_radiotap_info(&info, b, n));
     if (r != 0) printf("rtap err"); else { printf("rtap ok "); print_rtinfo(&info); }
-    __real_free(b);
+    hfree(b);
 }
 
 static void op_rssi(int nt, char **t) {
@@ -29,7 +29,7 @@ static void op_rssi(int nt, char **t) {
     int8_t r;
     LIB(r = libwifi_parse_radiotap_rssi(b));
     printf("rssi %u", (uint8_t) r);
-    __real_free(b);
+    hfree(b);
 }
 
 /* rtgen present freq chfl rate sig fl rx tx mk mf mm txp ts acc unit tsfl rts data nant a0n a0s
@@ -54,7 +54,7 @@ static void op_rtgen(int nt, char **t) {
     memset(buf, 0xEE, LIBWIFI_MAX_RADIOTAP_LEN);
     size_t r;
     LIB(r = libwifi_create_radiotap(&in, (char *) buf));
-    if (r > LIBWIFI_MAX_RADIOTAP_LEN) { printf("rtgen TOO-LONG %zu", r); __real_free(buf); return; }
+    if (r > LIBWIFI_MAX_RADIOTAP_LEN) { printf("rtgen TOO-LONG %zu", r); hfree(buf); return; }
     printf("rtgen %zu ", r); out_hex(buf, r);
     int touched = 0;
     for (size_t i = r; i < LIBWIFI_MAX_RADIOTAP_LEN; i++) touched |= buf[i] != 0xEE;
@@ -65,12 +65,13 @@ static void op_rtgen(int nt, char **t) {
     int pr;
     LIB(pr = libwifi_parse_radiotap_info(&out, gen, r));
     if (pr != 0) printf(" parse=err"); else { printf(" parse=ok "); print_rtinfo(&out); }
-    __real_free(gen); __real_free(buf);
+    hfree(gen); hfree(buf);
 }
 
 const struct op ops_rtap[] = {
     {"rtgen", op_rtgen},
     {"rtap", op_rtap},
     {"rssi", op_rssi},
+    {"rssi_trunc", op_rssi},
     {NULL, NULL},
 };
